@@ -80,17 +80,18 @@ End Events.
 
 (* ------------------------------------------------------------------------------------------ *)
 Section LvReflect.
-  Variables (E : list edge) (ns : list lnode) (R : list label) (nl : bool).
+  Variables (E : list edge) (ns : list lnode) (R : list label) (nl lam : bool).
   Let nd := find_node ns.
   Definition lR (n : label) : Prop := memn n R = true.
   Definition lgen (n : label) (x : name) : Prop :=
-    In x (n_reads (nd n)) \/ In x (n_cread (nd n)) \/ (nl = true /\ In x (n_cread_nl (nd n))).
+    In x (n_reads (nd n)) \/ In x (n_cread (nd n)) \/ (nl = true /\ In x (n_cread_nl (nd n)))
+    \/ (lam = true /\ In x (n_cread_lam (nd n))).
   Definition lkill (n : label) (x : name) : Prop := kill_s (nd n) x = true.
   Definition lin (n : label) (x : name) : Prop := memn x (n_in (nd n)) = true.
   Definition lout (n : label) (x : name) : Prop := memn x (n_out (nd n)) = true.
 
   Lemma lv_sound_reflect E' :
-    lv_sound E ns nl R = true -> incl E' E ->
+    lv_sound E ns nl lam R = true -> incl E' E ->
     bwd_solution name E' lR lgen lkill lin lout /\ (forall a, In (a, EXIT) E' -> lR a).
   Proof.
     unfold lv_sound. intros H I.
@@ -105,12 +106,14 @@ Section LvReflect.
       rewrite Rm in He. simpl in He. rewrite forallb_forall in He. apply He. apply memn_In. exact Im.
     - intros n x Rn G. unfold lR in Rn. apply memn_In in Rn. specialize (Hn n Rn).
       unfold lv_sound_node, lv_gen_node in Hn.
-      apply andb_true_iff in Hn; destruct Hn as [Hn _]. apply andb_true_iff in Hn; destruct Hn as [Hn H3].
+      apply andb_true_iff in Hn; destruct Hn as [Hn _]. apply andb_true_iff in Hn; destruct Hn as [Hn H4].
+      apply andb_true_iff in Hn; destruct Hn as [Hn H3].
       apply andb_true_iff in Hn; destruct Hn as [H1 H2].
-      rewrite forallb_forall in H1, H2. unfold lin. destruct G as [G|[G|[-> G]]].
+      rewrite forallb_forall in H1, H2. unfold lin. destruct G as [G|[G|[[-> G]|[-> G]]]].
       + apply H1. exact G.
       + apply H2. exact G.
       + simpl in H3. rewrite forallb_forall in H3. apply H3. exact G.
+      + simpl in H4. rewrite forallb_forall in H4. apply H4. exact G.
     - intros n x Rn O NK. unfold lR in Rn. apply memn_In in Rn. specialize (Hn n Rn).
       unfold lv_sound_node in Hn. apply andb_true_iff in Hn; destruct Hn as [_ H].
       rewrite forallb_forall in H. unfold lout in O. apply memn_In in O. specialize (H x O).
@@ -124,19 +127,19 @@ End LvReflect.
    reported live at the exit of s and at the entry of the node executed right after s.
    Guard (known finding for-target-killed-on-exit-edge): no for header with target x is evaluated in
    between without starting an iteration. *)
-Theorem liveness_sound_events_thm (E : list edge) (ns : list lnode) (nl : bool) (f : fn) :
-  incl_edges (cfg_fn f) E = true -> lv_sound E ns nl (reach_bwd E) = true ->
+Theorem liveness_sound_events_thm (E : list edge) (ns : list lnode) (nl lam : bool) (f : fn) :
+  incl_edges (cfg_fn f) E = true -> lv_sound E ns nl lam (reach_bwd E) = true ->
   forall n d tr o d', exec_fn n f d = (tr, o, d') -> o <> OFuel -> top_ok f = true -> guard_block (f_body f) = true ->
   normal_end o ->
   forall pre s mid k post x, tr = pre ++ s :: mid ++ k :: post ->
-    lgen ns nl k x ->
+    lgen ns nl lam k x ->
     (forall m nx, In (m, nx) (steps mid k) -> ~ dynw name (find_node ns) m nx x) ->
     (forall m nx, In (m, nx) (steps mid k) -> ~ exhausted name (find_node ns) m nx x) ->
     memn x (n_out (find_node ns s)) = true /\ memn x (n_in (find_node ns (hd k mid))) = true.
 Proof.
   intros I S n d tr o d' H Ho T G N pre s mid k post x Etr Gk NW GU.
-  destruct (lv_sound_reflect E ns (reach_bwd E) nl (cfg_fn f) S (incl_edges_incl _ _ I)) as [B X].
-  apply (liveness_sound_exec name (lgen ns nl) (lkill ns) (lin ns) (lout ns) (lR (reach_bwd E))
+  destruct (lv_sound_reflect E ns (reach_bwd E) nl lam (cfg_fn f) S (incl_edges_incl _ _ I)) as [B X].
+  apply (liveness_sound_exec name (lgen ns nl lam) (lkill ns) (lin ns) (lout ns) (lR (reach_bwd E))
            n f d tr o d' H Ho T G B pre s mid k post x Etr (or_intror (conj N X)) Gk).
   unfold lkill, kill_s. apply (no_static_kill name (find_node ns) mid k x NW GU).
 Qed.
@@ -248,13 +251,13 @@ Proof.
 Qed.
 
 Section LvReflectE.
-  Variables (E : list edge) (ns : list lnode) (R : list label) (nl : bool).
+  Variables (E : list edge) (ns : list lnode) (R : list label) (nl lam : bool).
   Let nd := find_node ns.
   Definition lkille (n m : label) (x : name) : Prop := dyn_kill (nd n) m x = true.
 
   Lemma lv_sound_e_reflect E' :
-    lv_sound_e E ns nl R = true -> incl E' E ->
-    bwd_solution_e name E' (lR R) (lgen ns nl) lkille (lin ns) (lout ns) /\ (forall a, In (a, EXIT) E' -> lR R a).
+    lv_sound_e E ns nl lam R = true -> incl E' E ->
+    bwd_solution_e name E' (lR R) (lgen ns nl lam) lkille (lin ns) (lout ns) /\ (forall a, In (a, EXIT) E' -> lR R a).
   Proof.
     unfold lv_sound_e. intros H I.
     apply andb_true_iff in H; destruct H as [H Hn]. apply andb_true_iff in H; destruct H as [H He].
@@ -268,11 +271,13 @@ Section LvReflectE.
       apply andb_true_iff in He. destruct He as [He _]. exact He.
     - intros n x Rn G. unfold lR in Rn. apply memn_In in Rn. specialize (Hn n Rn).
       unfold lv_gen_node in Hn.
-      apply andb_true_iff in Hn; destruct Hn as [Hn H3]. apply andb_true_iff in Hn; destruct Hn as [H1 H2].
-      rewrite forallb_forall in H1, H2. unfold lin. destruct G as [G|[G|[-> G]]].
+      apply andb_true_iff in Hn; destruct Hn as [Hn H4]. apply andb_true_iff in Hn; destruct Hn as [Hn H3].
+      apply andb_true_iff in Hn; destruct Hn as [H1 H2].
+      rewrite forallb_forall in H1, H2. unfold lin. destruct G as [G|[G|[[-> G]|[-> G]]]].
       + apply H1. exact G.
       + apply H2. exact G.
       + simpl in H3. rewrite forallb_forall in H3. apply H3. exact G.
+      + simpl in H4. rewrite forallb_forall in H4. apply H4. exact G.
     - intros n m x Hin Rm Im NK. specialize (He (n, m) (I _ Hin)). simpl in He. unfold lR in Rm.
       rewrite Rm in He. simpl in He. rewrite forallb_forall in He. apply memn_In in Im. specialize (He x Im).
       apply andb_true_iff in He. destruct He as [_ He]. apply orb_true_iff in He.
@@ -281,18 +286,18 @@ Section LvReflectE.
   Qed.
 End LvReflectE.
 
-Theorem liveness_sound_events_edge_thm (E : list edge) (ns : list lnode) (nl : bool) (f : fn) :
-  incl_edges (cfg_fn f) E = true -> lv_sound_e E ns nl (reach_bwd E) = true ->
+Theorem liveness_sound_events_edge_thm (E : list edge) (ns : list lnode) (nl lam : bool) (f : fn) :
+  incl_edges (cfg_fn f) E = true -> lv_sound_e E ns nl lam (reach_bwd E) = true ->
   forall n d tr o d', exec_fn n f d = (tr, o, d') -> o <> OFuel -> top_ok f = true -> guard_block (f_body f) = true ->
   normal_end o ->
   forall pre s mid k post x, tr = pre ++ s :: mid ++ k :: post ->
-    lgen ns nl k x ->
+    lgen ns nl lam k x ->
     (forall m nx, In (m, nx) (steps mid k) -> ~ dynw name (find_node ns) m nx x) ->
     memn x (n_out (find_node ns s)) = true /\ memn x (n_in (find_node ns (hd k mid))) = true.
 Proof.
   intros I S n d tr o d' H Ho T G N pre s mid k post x Etr Gk NW.
-  destruct (lv_sound_e_reflect E ns (reach_bwd E) nl (cfg_fn f) S (incl_edges_incl _ _ I)) as [B X].
-  apply (liveness_sound_exec_e name (lgen ns nl) (lkille ns) (lin ns) (lout ns) (lR (reach_bwd E))
+  destruct (lv_sound_e_reflect E ns (reach_bwd E) nl lam (cfg_fn f) S (incl_edges_incl _ _ I)) as [B X].
+  apply (liveness_sound_exec_e name (lgen ns nl lam) (lkille ns) (lin ns) (lout ns) (lR (reach_bwd E))
            n f d tr o d' H Ho T G B N X pre s mid k post x Etr Gk).
   intros m nx Hs K. apply (NW m nx Hs). apply dyn_kill_dynw. exact K.
 Qed.
